@@ -112,6 +112,7 @@ FIXED.append("fixed: property=C18 540625a patch.Delete(bundle, 'Bundle.entry[0].
 FIXED.append("fixed: property=C01 fcbf6dc a Bundle entry whose ContainedResource wrapper holds no resource made Bundle.entry.resource, Bundle.descendants(), Bundle.entry.children() and every patch operation below it panic (nil dereference in unwrapOneof); pointed out by the C01 sub-agent, covered by the new degenerate-resources sub-space")
 FIXED.append("fixed: property=C09 04cc5a2 `@2019-01-01T00Z + 3000000 hours` gave 1776-09-07T01Z and `@T00 + 3000000 hours` gave T01: an amount of hours / minutes / seconds / milliseconds beyond the 292 years a 64-bit duration holds wrapped around; it now yields empty (overflow); found after large amounts were added to the C09 grid")
 FIXED.append("fixed: property=C15 ac3e1cd a FHIR date element whose proto carries a time zone (e.g. from an unmarshaller with a default zone) became a System Date that printed 2020-01-01 but was not equal to @2020-01-01 (it kept midnight of that zone and Dates compare as instants); same for year/month/day-precision dateTime elements; found by the value-equals-what-it-prints oracle added for the seeded change C15-m9")
+FIXED.append("fixed: property=C02 bc4a80e `Patient.text.div.value` (the xhtml content of a narrative) failed with 'value can't be cast to system type: complex type *Xhtml', and with it children() of a Narrative and descendants() of any resource that has a narrative: Xhtml was missing from system.IsPrimitive and system.From; the C02 primitive-value stage had skipped Xhtml elements, the skip was removed when the contained-resource type tests of C12 ran into descendants()")
 k('C13', 'result-string-round-trip|Quantity|*qty.*unit*|empty|unit=', "a Quantity with the empty unit (literal 1 '', or a FHIR Quantity that has only a human-readable unit and no code) prints as the bare number, which reads back with unit '1' and is then not comparable with the original (empty-unit family, see string-round-trip|Quantity|qty.1)", {'src': "(1 '').toString().toQuantity() = (1 '')", 'got': '{}', 'want': 'true'})
 k('C13', 'string-round-trip|Quantity|*qty.*unit*|empty', "same defect seen through x.toString().toQuantity() = x for x a Quantity with the empty unit", {'src': "(1 '').toString().toQuantity() = (1 '')", 'got': '{}', 'want': 'true'})
 k('C13', 'table|Quantity|str.g.num.base|unconvertible-but-value', "same recorded defect as table|Quantity|str.g.datetime: toQuantity() accepts any letters after the number as a unit: '0x'.toQuantity() = 0 'x'", {'src': "'0x'.toQuantity()", 'got': "0 'x'", 'want': '{}'})
